@@ -360,6 +360,8 @@ func boolRaws() []any {
 		}
 	}
 	out = append(out, uint64(math.MaxUint64), uint64(1)<<63+1, uint64(1)<<32+1)
+	// letters that lower-casing or case folding maps onto ASCII ones: dotted capital I, Kelvin sign, long s
+	out = append(out, "DİSABLE", "DİSABLED", "yeſ", "falſe", "K", "OṄ", "ＴＲＵＥ", "trúe")
 	return out
 }
 
